@@ -121,7 +121,8 @@ def _pins():
     else:
         doc = ast.get_docstring(f)
         strs = [s for s in _strings(f) if s != doc]
-        if strs != ["member_schema", ".", "..", ".", "\\.", "/", "\\/", "[", "\\[",
+        # ("" = the empty step of an unnamed element, 05c4adc)
+        if strs != ["member_schema", "", ".", "..", ".", "\\.", "/", "\\/", "[", "\\[",
                     "\\.", "\\\\.", "\\]", "\\\\]"]:
             problems.append("pin _path_segment: string literals changed: %r" % (strs,))
     # the compiled objects the running code uses must carry the same text (no monkeypatching)
